@@ -420,6 +420,10 @@ def check_safety(prop, tier, replay):
         return replay_file(prop, replay)
     t0 = time.time()
     stages = [product_stage(prop, name, "MC_Safety.tla", "MC_Safety.cfg", c) for name, c in SAFETY_STAGES[tier]]
+    if prop == "C01":
+        # the same behaviours on the library built WITHOUT the print option (its other configuration)
+        name, c = SAFETY_STAGES[tier][0]
+        stages.append(product_stage(prop, name + "-noprint-build", "MC_Safety.tla", "MC_Safety.cfg", c, build_cfg="asan-noprint"))
     for name, mod, cfg, c in EXTRA_STAGES.get(prop, {}).get(tier, []):
         stages.append(product_stage(prop, name, mod, cfg, c, replayer={"MC_Writer.tla": "replay_writer", "MC_ToString.tla": "replay_tostring", "MC_Class.tla": "replay_class"}.get(mod, "replay_parser"),
                                     memprop=prop if mod == "MC_ToString.tla" else None,
